@@ -202,6 +202,7 @@ class DictEval:
         self.visited: List[str] = []
         self.visited_fns: List[Tuple[str, pf.FuncDef, pf.Module]] = []
         self.memoised: Dict[str, str] = {}
+        self._fn_mod: Dict[int, pf.Module] = {}     # imported module-level helpers -> the module they are defined in
 
     # -- resolution -----------------------------------------------------------------
     def resolve(self, name: str, start_after: Optional[str] = None, start_at: Optional[str] = None) -> Optional[Tuple[str, pf.FuncDef, pf.Module]]:
@@ -478,7 +479,12 @@ class DictEval:
             try:
                 f = fr.m.func(e.func.id)
             except Exception:  # noqa: BLE001
-                return None
+                # a helper imported from another repository module (e.g. a constructor function of batch/batch/resources.py used by the cloud modules)
+                r = resolve_imported(fr.m, e.func.id) if e.func.id in fr.m.imports() else None
+                if r is None or not isinstance(r[1], ast.FunctionDef):
+                    return None
+                f = r[1]
+                self._fn_mod[id(f)] = r[0]
             return e.func.id, None, None, e, f
         if not (isinstance(e, ast.Call) and isinstance(e.func, ast.Attribute)):
             return None
@@ -501,7 +507,7 @@ class DictEval:
         """Evaluate the call on a fork of st; every returned path's state has the (forked) caller environment on top of its stack."""
         name, after, at, call, modfn = mc
         if modfn is not None:
-            owner, fn, m = '<module>', modfn, fr.m
+            owner, fn, m = '<module>', modfn, self._fn_mod.get(id(modfn), fr.m)
             if decorator_kind(fn)[0] == 'unknown':
                 raise AnalysisError(f'{fr.where}: `{name}` is decorated with something that is not understood')
             params = [a.arg for a in fn.args.args]
